@@ -38,10 +38,14 @@ DurSign(D) == LET f == DurFields(D)
 SignUniform(D) == DurSign(D) # 2
 NegDur(D) == Dur10(Neg(D.y), Neg(D.mo), Neg(D.w), Neg(D.d), Neg(D.h), Neg(D.mi), Neg(D.s), Neg(D.ms), Neg(D.us), Neg(D.ns))
 
+\* multiplications by powers of 1000 (MulSmall's factor must stay <= 200000)
+K3(b) == MulSmall(b, 1000)
+K6(b) == K3(K3(b))
+K9(b) == K3(K6(b))
 \* total of the time fields (h..ns) in nanoseconds, exact
-TimeNs(D) == Add(Add(Add(MulSmall(MulSmall(MulSmall(D.h, 3600), 1000), 1000000), MulSmall(MulSmall(MulSmall(D.mi, 60), 1000), 1000000)),
-                     Add(MulSmall(MulSmall(D.s, 1000), 1000000), MulSmall(D.ms, 1000000))),
-                 Add(MulSmall(D.us, 1000), D.ns))
+TimeNs(D) == Add(Add(Add(K9(MulSmall(D.h, 3600)), K9(MulSmall(D.mi, 60))),
+                     Add(K9(D.s), K6(D.ms))),
+                 Add(K3(D.us), D.ns))
 \* big / 86400e9 truncated (whole days in a time total), quotient as big
 NsToDaysTrunc(b) == TruncDivSmall(TruncDivSmall(TruncDivSmall(TruncDivSmall(b, 1000).q, 1000).q, 1000).q, 86400).q
 =============================================================================
